@@ -1,10 +1,15 @@
 """C10 -- Telling is faithful bookkeeping: data, pending set and re-tells.
 
-proof          : coq/theories/Props/C10.v about Model/Seq.v and Model/L1D.v (data = told points with the last / first told
-                 value; told is not pending; asked is pending until told or discarded; npoints = distinct told points;
-                 re-tell is a no-op; discard empties pending and equalises the two losses) -- for ALL histories
-correspondence : the two models vs the real SequenceLearner / Learner1D on histories rich in re-tells (same and different
-                 values), unsolicited points, batches and discards, compared step by step inside Coq
+proof          : coq/theories/Props/C10.v about Model/Seq.v, Model/L1D.v, Model/Avg.v, Model/Avg1D.v + Avg1DPend.v,
+                 Model/DataSaver.v and Model/Balancing.v (from the same clauses of the wrapped learners), Model/Integrator.v,
+                 Model/LND.v: data = told points with the last / first told value; told is not pending; asked is pending
+                 until told or discarded; npoints = distinct told points; re-tell is a no-op; discard empties pending and
+                 equalises the two losses -- for ALL histories of the stated domains; clauses a model cannot express (values
+                 of Integrator / LearnerND, loss of AverageLearner1D) are left out and the theorem is named _partial;
+                 the known findings F20, F22, F24 are _refuted witnesses on the models
+correspondence : Seq, L1D, Avg, Avg1D+pending, LearnerND (with re-tells) vs the real classes on histories rich in re-tells
+                 (same and different values), unsolicited points, tell_pending of arbitrary points, batches and discards,
+                 compared step by step inside Coq; Integrator / Balancing / DataSaver models by C07 / C15 / C18
 search         : from-scratch bookkeeping oracle on the REAL classes, every learner type and both wrappers, after every op
 """
 from __future__ import annotations
@@ -28,7 +33,15 @@ THEOREMS = {n: "Props.C10" for n in [
     "C10_avg_npoints", "C10_avg_retell_noop", "C10_avg_discard",
     "C10_eqlaws_Z", "C10_avg1d_data_exact", "C10_avg1d_told_exact", "C10_avg1d_told_not_pending",
     "C10_avg1d_data_pending_disjoint", "C10_avg1d_commit_hands_out_told_refuted", "C10_avg1d_asked_is_pending",
-    "C10_avg1d_nsamples", "C10_avg1d_retell_noop", "C10_avg1d_discard_partial"]}
+    "C10_avg1d_nsamples", "C10_avg1d_retell_noop", "C10_avg1d_discard_partial",
+    "C10_ds_observables_are_childs", "C10_ds_told_not_pending", "C10_ds_asked_is_pending", "C10_ds_extra_exact",
+    "C10_ds_retell_noop", "C10_ds_retell_overwrites_extra", "C10_ds_discard", "C10_ds_extra_overwritten_refuted",
+    "C10_bal_data_after_tell", "C10_bal_told_not_pending", "C10_bal_npoints", "C10_bal_retell_noop", "C10_bal_discard",
+    "C10_bal_discard_losses", "C10_bal_asked_is_pending",
+    "C10_int_inv", "C10_int_data_exact_partial", "C10_int_tell_bookkeeping", "C10_int_asked_is_pending",
+    "C10_int_retell_points_partial",
+    "C10_lnd_data_exact_partial", "C10_lnd_told_not_pending", "C10_lnd_data_pending_disjoint", "C10_lnd_ask_bookkeeping",
+    "C10_lnd_asked_is_pending", "C10_lnd_retell_noop", "C10_lnd_discard", "C10_lnd_ask_hands_out_told_refuted"]}
 
 SIG_F5 = "C10:F5 LearnerND.ask after remove_unfinished raises AssertionError"
 SIG_F11 = "C10:F11 AverageLearner.loss(real=False) ZeroDivisionError with pending points and no data"
@@ -557,12 +570,14 @@ def model_correspondences(chk: Check):
     chk.extra["avg1d_pending_correspondence"] = B.d1p_correspondence(
         chk, "a1dcases", B.MIX_C10, 120 if chk.quick else 1000, 26 if chk.quick else 50)
     chk.log(f"correspondence: Avg1D+pending {chk.extra['avg1d_pending_correspondence']}")
+    chk.extra["lnd_retell_correspondence"] = B.lnd_retell_correspondence(chk, "lndcases", 30 if chk.quick else 250, 18 if chk.quick else 36)
+    chk.log(f"correspondence: LearnerND with re-tells {chk.extra['lnd_retell_correspondence']}")
 
 
 # ---------------------------------------------------------------- driver
 def run(chk: Check) -> int:
     warnings.filterwarnings("ignore")
-    chk.prove(["theories/Props/C10.vo"] + c09.VO_TARGETS[1:], THEOREMS)
+    chk.prove(["theories/Props/C10.vo", "theories/Run/LNDRun.vo"] + c09.VO_TARGETS[1:], THEOREMS)
     correspondence(chk)
     model_correspondences(chk)
     l2d_exc = c09.l2d_smoke()
@@ -628,9 +643,14 @@ def run(chk: Check) -> int:
              "children of each type x 4 strategies; DataSaver over each type): committing asks, tells of pending and of unsolicited "
              "in-domain points, tell_many (incl. a known point), tell_pending, re-tells with the same and with a different value, "
              "discards; the oracle runs after EVERY op (evaluations = ops); non-trivial = at least one re-tell, one discard with pending "
-             "points and > 2 told points; distinct by (configuration, op list); plus Seq/L1D model correspondences rich in re-tells",
-        assumptions=["Model/Seq.v and Model/L1D.v tied to the code by sampled correspondence; all other learner types are covered by the "
-                     "bookkeeping oracle on the real classes only (no model): for them the level is the oracle's, not a proof",
+             "points and > 2 told points; distinct by (configuration, op list); BalancingLearner histories switch the strategy mid-run "
+             "(all 16 ordered pairs); Learner2D / LearnerND domains with different, also disjoint, per-axis ranges; plus model "
+             "correspondences (Seq, L1D, Avg, Avg1D+pending, LearnerND) rich in re-tells, tell_pending and discards",
+        assumptions=["Seq, L1D, Avg, Avg1D(+pending overlay), LND models tied to the code by sampled correspondence here, Integrator / "
+                     "Balancing / DataSaver by C07 / C15 / C18; Learner2D has no model (bookkeeping oracle only)",
+                     "wrappers: the theorems are relative to the same clauses of the wrapped learners (hypotheses of the Coq sections)",
+                     "Integrator / LearnerND models hold the KEYS of data only (values are the environment's); AverageLearner1D's "
+                     "loss is not modelled: the corresponding clauses are decided by the oracle only",
                      "pending_points is required to CONTAIN every handed-out, untold, undiscarded point and no told point (the property "
                      "text); equality is not demanded (the integrator queues points as pending before handing them out)",
                      "tell_pending is only ever called on points without a value (the reading chosen in DESIGN section 7 C10)"])
